@@ -13,6 +13,7 @@ import (
 	"encoding/json"
 	"fmt"
 	"math/big"
+	"math/rand"
 	"os"
 	"path/filepath"
 	"regexp"
@@ -441,6 +442,8 @@ func c03Main(args []string) error {
 		return fmt.Errorf("usage: vh c03 replay|vectors ...")
 	}
 	switch args[0] {
+	case "wide":
+		return c03Wide(args[1:])
 	case "replay":
 		out, err := newND(args[2])
 		if err != nil {
@@ -681,4 +684,84 @@ func c09Main(args []string) error {
 		return c09Graphs(args[1:])
 	}
 	return fmt.Errorf("unknown c09 mode")
+}
+
+// c03Wide: single-operator programs on types the interpreter of Mpcl.tla cannot enumerate (33..130 bits): the compiled
+// circuit's results on boundary operands are written as ArithTrace events (base-4096 limbs) and checked relationally.
+//   vh c03 wide trace.ndjson results.ndjson n
+func c03Wide(args []string) error {
+	if len(args) < 2 {
+		return fmt.Errorf("usage: vh c03 wide trace.ndjson results.ndjson n")
+	}
+	tr, err := newND(args[0])
+	if err != nil {
+		return err
+	}
+	defer tr.close()
+	out, err := newND(args[1])
+	if err != nil {
+		return err
+	}
+	defer out.close()
+	n := 120
+	if len(args) > 2 {
+		fmt.Sscan(args[2], &n)
+	}
+	rng := rand.New(rand.NewSource(seed()*40503 + 3))
+	widths := []int{33, 46, 47, 50, 63, 64, 65, 66, 83, 100, 127, 128, 129, 130}
+	type wop struct{ name, expr, rt string; signed, both bool }
+	ops := []wop{{"add", "a + b", "", false, false}, {"sub", "a - b", "", false, false}, {"mul", "a * b", "", false, false},
+		{"mul", "a * b", "", false, false}, {"udiv", "a / b, a % b", "", false, true}, {"idiv", "a / b, a % b", "", true, true},
+		{"ult", "a < b", "bool", false, false}, {"ugt", "a > b", "bool", false, false}, {"ilt", "a < b", "bool", true, false},
+		{"ige", "a >= b", "bool", true, false}, {"eq", "a == b", "bool", false, false}, {"neq", "a != b", "bool", false, false},
+		{"band", "a & b", "", false, false}, {"bxor", "a ^ b", "", false, false}, {"bclr", "a &^ b", "", false, false}}
+	cache := map[string]*circuit.Circuit{}
+	for i := 0; i < n; i++ {
+		op := ops[i%len(ops)]
+		w := widths[rng.Intn(len(widths))]
+		T := typeName(op.signed, w)
+		rt := op.rt
+		if rt == "" {
+			rt = T
+		}
+		if op.both {
+			rt = "(" + T + ", " + T + ")"
+		}
+		src := fmt.Sprintf("package main\n\nfunc main(a, b %s) %s {\n\treturn %s\n}\n", T, rt, op.expr)
+		res := &Result{Case: i, Nontrivial: true, Class: "wide:" + op.name}
+		c, ok := cache[src]
+		if !ok {
+			c, err = compileMPCL(src, nil)
+			if err != nil {
+				res.Class = "rejected"
+				res.drift("wide program does not compile: %v\n%s", err, src)
+				out.put(res)
+				continue
+			}
+			cache[src] = c
+		}
+		wz := w
+		if op.rt == "bool" {
+			wz = 1
+		}
+		for k := 0; k < 6; k++ {
+			x, y := boundaryOperand(rng, w), boundaryOperand(rng, w)
+			if op.both && y.Sign() == 0 {
+				y = big.NewInt(3)
+			}
+			got, err := c.Compute([]*big.Int{x, y})
+			if err != nil {
+				res.viol("compute-error", "%v", err)
+				break
+			}
+			ev := map[string]interface{}{"ev": "op", "op": op.name, "target": "mpcl", "wx": w, "wy": w, "wz": wz,
+				"x": limbs(x, w), "y": limbs(y, w), "z": limbs(got[0], wz), "r": []int{0}}
+			if op.both {
+				ev["r"] = limbs(got[1], w)
+			}
+			tr.put(ev)
+		}
+		out.put(res)
+	}
+	return nil
 }
